@@ -1,10 +1,11 @@
 package main
 
 import (
-	"strconv"
 	"bytes"
 	"io"
 	"reflect"
+	"strconv"
+	"time"
 
 	"github.com/bluenviron/gomavlib/v3"
 	"github.com/bluenviron/gomavlib/v3/pkg/dialect"
@@ -12,6 +13,7 @@ import (
 	"github.com/bluenviron/gomavlib/v3/pkg/message"
 
 	"verifharness/hx"
+	"verifharness/scn"
 )
 
 func init() { gens["C08"] = genC08 }
@@ -62,6 +64,7 @@ func hasString(m message.Message) bool {
 }
 
 func genC08(o *hx.Out, tier string) {
+	defer c08NodeForward(o)
 	r := hx.NewRand(8)
 	d := shipped("common")
 	drw := defineDialect(o, "common", d)
@@ -368,4 +371,96 @@ func genC08(o *hx.Out, tier string) {
 		}
 		node.Close()
 	}
+}
+
+// c08NodeForward: a router built on a Node forwards what it receives and then goes on using the
+// message it was handed (here: changes a field) while the destination link is still busy with an
+// earlier write: what reaches the next hop is the frame as it was when it was forwarded, a valid
+// frame that decodes to the received message.
+func c08NodeForward(o *hx.Out) {
+	d := shipped("common")
+	drw := &dialect.ReadWriter{Dialect: d}
+	drw.Initialize() //nolint:errcheck
+	r := hx.NewRand(808)
+	verdict := "ok"
+	in, out := scn.NewPipe("in"), scn.NewPipe("out")
+	node, err := gomavlib.NewNode(gomavlib.NodeConf{Endpoints: []gomavlib.EndpointConf{
+		gomavlib.EndpointCustom{ReadWriteCloser: in}, gomavlib.EndpointCustom{ReadWriteCloser: out}},
+		Dialect: d, OutVersion: gomavlib.V2, OutSystemID: 10, HeartbeatDisable: true})
+	if err != nil {
+		o.Add("node forwards, then reuses the message", "NODE-FAILED", "expect", "ok", "node-forward-reuse")
+		return
+	}
+	var statustext message.Message
+	for _, m := range d.Messages {
+		if m.GetID() == 253 {
+			statustext = m
+		}
+	}
+	const n = 8
+	var sentHex []string
+	out.BlockWrites()
+	done := make(chan struct{})
+	go func() {
+		defer close(done)
+		got := 0
+		for evt := range node.Events() {
+			if fe, ok := evt.(*gomavlib.EventFrame); ok {
+				node.WriteFrameExcept(fe.Channel, fe.Frame) //nolint:errcheck
+				// the application keeps using its message
+				v := reflect.ValueOf(fe.Message()).Elem()
+				if f := v.FieldByName("Text"); f.IsValid() {
+					f.SetString("overwritten by the application")
+				}
+				if f := v.FieldByName("Severity"); f.IsValid() {
+					f.SetUint(7)
+				}
+				got++
+				if got == n {
+					out.UnblockWrites()
+				}
+			}
+		}
+	}()
+	// wait for both channels, then feed
+	time.Sleep(200 * time.Millisecond)
+	for i := 0; i < n; i++ {
+		m := hx.RandMessage(r, statustext, 2)
+		reflect.ValueOf(m).Elem().FieldByName("Text").SetString("frame " + strconv.Itoa(i))
+		fr := validFrame(r, drw, m, true, nil)
+		bs, _ := writeFrame(drw, fr)
+		sentHex = append(sentHex, hx.Value(canonMsg(drw, m)))
+		in.Feed(bs)
+	}
+	okw := out.WaitWrites(func(ws [][]byte) bool { return len(ws) >= n })
+	ws := out.Writes()
+	if !okw || len(ws) != n {
+		verdict = "FORWARDED " + strconv.Itoa(len(ws)) + " OF " + strconv.Itoa(n)
+	} else {
+		for i, w := range ws {
+			rd := &frame.Reader{ByteReader: bytes.NewReader(w), DialectRW: drw}
+			rd.Initialize() //nolint:errcheck
+			fr, err := rd.Read()
+			if err != nil {
+				verdict = "NEXT-HOP-REFUSES-FRAME-" + strconv.Itoa(i) + " " + err.Error()
+				break
+			}
+			if hx.Value(fr.GetMessage()) != sentHex[i] {
+				verdict = "NEXT-HOP-DECODES-ANOTHER-MESSAGE-AT-" + strconv.Itoa(i)
+				break
+			}
+		}
+	}
+	node.Close()
+	<-done
+	o.Add("node forwards, then reuses the message", verdict, "expect", "ok", "node-forward-reuse")
+}
+
+func canonMsg(drw *dialect.ReadWriter, m message.Message) message.Message {
+	mrw := drw.GetMessage(m.GetID())
+	out, err := mrw.Read(mrw.Write(m, true), true)
+	if err != nil {
+		return m
+	}
+	return out
 }
